@@ -205,6 +205,28 @@ def r14_4(ctx):
                             if any("ColorParseError" in EscapeAnalysis.handler_types(h) and any(isinstance(x, ast.Raise) for x in h.body) for h in prev.handlers):
                                 # the validated name must not be rebound between the try and the store
                                 ok = True
+                if not ok and isinstance(n.value, ast.Name):
+                    # general form (CFG): from every binding of the word (loop target, `word = next(..)`), the store is reachable
+                    # only through a `Color.parse(word)` that sits in a try converting ColorParseError
+                    from .. import cfg as _cfg144
+                    g144 = _cfg144.build(sp.node)
+                    validating = set()
+                    for t_ in walk_local(sp.node):
+                        if isinstance(t_, ast.Try) and any("ColorParseError" in EscapeAnalysis.handler_types(hh) and any(isinstance(x, ast.Raise) for x in hh.body) for hh in t_.handlers):
+                            for s_ in t_.body:
+                                if any(isinstance(c, ast.Call) and norm(c.func) == "Color.parse" and c.args and norm(c.args[0]) == src for c in ast.walk(s_)):
+                                    validating |= set(g144.nodes_of(s_))
+                    binders = set()
+                    for nd in g144.nodes:
+                        if nd.id not in g144.reachable:
+                            continue
+                        if nd.kind == "for" and any(isinstance(x, ast.Name) and x.id == src for x in ast.walk(nd.stmt.target)):
+                            binders.add(nd.id)
+                        if nd.kind == "stmt" and isinstance(nd.stmt, ast.Assign) and any(isinstance(t2, ast.Name) and t2.id == src for t2 in nd.stmt.targets):
+                            binders.add(nd.id)
+                    store_nodes = set(g144.nodes_of(n))
+                    if validating and binders and store_nodes:
+                        ok = not any(store_nodes & g144.reach([b_], avoid=validating | (binders - {b_})) for b_ in binders)
                 ctx.check(ok, sp.fq, norm(n), f"{mod.relpath}:{n.lineno}", f"`{var} = {src}` stored only after Color.parse({src}) succeeded in this branch",
                           f"`{var} = {src}` is stored for the final Style(...) call without a preceding validated Color.parse({src}) in the same branch: an invalid colour word raises ColorParseError instead of StyleSyntaxError")
     ctx.floor(n_a, 2, "colour word stores in Style.parse")
